@@ -331,6 +331,12 @@ def _session(draw, algos, entry, seeding=False, always_supported=False):
     pre, max_rounds, max_count = [], 1, 5
   rounds = draw(_rounds(spec, nm, fam, max_rounds, max_count, allow_none,
                         force_single, rare_inf))
+  if fam in ('grid', 'grid_shuffle') and not seeding and draw(st.booleans()):
+    # a grid is only fully seen after many suggestions (the last point of an
+    # axis comes late): one long final request, cheap for this designer
+    rounds.append({'count': draw(st.integers(10, 24)),
+                   'fb': [draw(_status(nm, rare_inf)) for _ in range(3)],
+                   'extra': [], 'finish': 0})
   if seeding:
     return {'entry': entry, 'algo': algo, 'space': spec, 'metrics': metrics,
             'opts': opts, 'seed': draw(st.integers(0, 2 ** 16)), 'pre': pre,
